@@ -1,43 +1,22 @@
 import JadeModel.Proofs.SystemLive1
+import JadeModel.Proofs.SystemLiveStep3A
+import JadeModel.Proofs.SystemLiveStep3B
+import JadeModel.Proofs.SystemLiveStep3C
 
 set_option linter.unusedSimpArgs false
 
-/-!
-Fault-free executions, part 3: the role holder's copy is ahead of the status file in a controlled way —
+/-! Fault-free executions, part 3: the role holder's copy is ahead of the status file in a controlled way —
 every collected row is for a job that is DONE in the copy or still in this round's pass / newly set, and
 a round never ends without having written that to disk.
--/
+ -/
 
 namespace Jade.Sys
 
-/-- the holder's view of the consolidated file -/
-structure Live3 (s : Sys) : Prop where
-  /-- every collected row is accounted for in the holder's copy -/
-  hProc : ∀ q a y, s.procs q = .sub a y → holds y.pc = true → ∀ j : JobId, HasJob s.processed j →
-    y.loc.st j = .done ∨ HasJob y.pass j ∨ j ∈ y.newly
-  /-- …and, between rounds, in the status file -/
-  dProc : s.submitter = none → ∀ j : JobId, HasJob s.processed j → s.disk.st j = .done
-  newlyNotNs : ∀ q a y, s.procs q = .sub a y → holds y.pc = true → ∀ j ∈ y.newly, y.loc.st j ≠ .ns
-  passNotNs : ∀ q a y, s.procs q = .sub a y → holds y.pc = true → ∀ j : JobId, HasJob y.pass j → y.loc.st j ≠ .ns
-  pendNs : ∀ q a y, s.procs q = .sub a y → holds y.pc = true → ∀ j ∈ y.pend, y.loc.st j = .ns
-  toCancelDone : ∀ q a y, s.procs q = .sub a y → ∀ j ∈ y.toCancel, y.loc.st j = .done
-  /-- DONE in the copy but not yet on disk only for this round's cancellations and collections -/
-  syncDone : ∀ q a y, s.procs q = .sub a y → holds y.pc = true → ∀ j : JobId, y.loc.st j = .done →
-    s.disk.st j = .done ∨ j ∈ y.toCancel ∨ HasJob y.pass j ∨ j ∈ y.newly
-
-theorem live3_init (sc : Scn) : Live3 (init sc) := by
-  refine ⟨?_, ?_, ?_, ?_, ?_, ?_, ?_⟩ <;> simp [init, HasJob]
-
-set_option maxHeartbeats 32000000 in
 theorem live3_step {s s' : Sys} {op : Op} (hb : BatchInv s) (h0 : Live0 s) (h2 : Live2 s) (hi : Live3 s)
     (h : stepP s op = some s') : Live3 s' := by
-  have hbs := fun q a y hq hh => @holder_batch_st s hb h0 q a y hq hh
-  obtain ⟨⟨r1, r2, r3, r4, r5⟩, -, -, -, -, -, -, -⟩ := hb
-  obtain ⟨a1, a2, a3, a4, a5, a6⟩ := h0
-  have f4 := h2.fileRows
-  obtain ⟨c1, c2, c3, c4, c5, c6, c7⟩ := hi
-  plain_cases op h hs hg <;> (refine ⟨?_, ?_, ?_, ?_, ?_, ?_, ?_⟩ <;> frame_out)
-  all_goals first
-    | grind [SubP.load, persistStatus, find?_hid, afterCollect, afterPersist]
+  obtain ⟨c_hProc, c_dProc, c_pendNs⟩ := live3_step_a hb h0 h2 hi h
+  obtain ⟨c_newlyNotNs, c_passNotNs⟩ := live3_step_b hb h0 h2 hi h
+  obtain ⟨c_toCancelDone, c_syncDone⟩ := live3_step_c hb h0 h2 hi h
+  exact ⟨c_hProc, c_dProc, c_newlyNotNs, c_passNotNs, c_pendNs, c_toCancelDone, c_syncDone⟩
 
 end Jade.Sys
